@@ -13,9 +13,9 @@ import (
 // Shared generator-source rules (GS). Each takes the rule id under which the calling property reports it.
 
 func genFn(c *Ctx, rule, name string) *ssa.Function {
-	fn := c.L.fn(genPkg, name)
+	fn := resolveRole(c, genPkg, name)
 	if fn == nil {
-		c.undecided(rule, name, "function "+name+" not found in internal/kessoku")
+		c.undecided(rule, name, "function "+name+" not found in internal/kessoku (neither by name nor by role)")
 		return nil
 	}
 	c.seen(fnName(fn))
@@ -563,17 +563,40 @@ func ruleStmtOrder(c *Ctx, rule string) {
 	L := c.L
 	if fn := genFn(c, rule, "(*InjectorProviderCallStmt).Stmt"); fn != nil {
 		var wait, decl, assign, errh, closeS *ssa.Call
+		roleOf := func(v ssa.Value) *ssa.Function {
+			// the module function whose result is appended (directly, through an if-non-nil phi, or as a spread)
+			v = resolve(v)
+			if elems, ok := variadicElems(v); ok && len(elems) == 1 {
+				v = resolve(elems[0])
+			}
+			if ph, ok := v.(*ssa.Phi); ok {
+				for _, e := range ph.Edges {
+					if !isNilConst(e) {
+						v = resolve(e)
+					}
+				}
+			}
+			if call, ok := v.(*ssa.Call); ok {
+				return call.Common().StaticCallee()
+			}
+			return nil
+		}
+		waitFn := resolveRole(c, genPkg, "(*InjectorProviderCallStmt).generateChannelWaitStatement")
+		closeFn := resolveRole(c, genPkg, "(*InjectorProviderCallStmt).generateChannelCloseStatement")
+		assignFn := resolveRole(c, genPkg, "(*InjectorProviderCallStmt).buildAssignmentStatement")
+		errFn := resolveRole(c, genPkg, "(*InjectorProviderCallStmt).buildErrorHandlingStatement")
 		for _, a := range appendsIn(L, fn) {
+			r := roleOf(a.call.Common().Args[1])
 			switch {
-			case strings.Contains(a.label, "generateChannelWaitStatement"):
+			case r != nil && r == waitFn:
 				wait = a.call
 			case strings.Contains(a.label, "lit:DeclStmt"):
 				decl = a.call
-			case strings.Contains(a.label, "buildAssignmentStatement"):
+			case r != nil && r == assignFn:
 				assign = a.call
-			case strings.Contains(a.label, "buildErrorHandlingStatement"):
+			case r != nil && r == errFn:
 				errh = a.call
-			case strings.Contains(a.label, "generateChannelCloseStatement"):
+			case r != nil && r == closeFn:
 				closeS = a.call
 			}
 		}
